@@ -1,7 +1,322 @@
-/- C01 — statements under construction -/
-import AgpTpf.Model.Remap
+/-
+  C01 — Remapping conserves sequence: outputs exactly partition the input contigs.
+
+  The end-to-end theorem (`remap … = .ok outs → the output fragments partition the input contigs`) is a staged
+  proof.  PROVED here, each at full strength for its stage (no `_partial` theorems in this file):
+
+    S1  `qc_tiles`               the cut QC (`qc_sub_fragments`) passing ⇒ the sub-fragments, sorted, abut consecutively on
+                                 one contig, their lengths sum to the original's, and — when they lie inside the original
+                                 (S2) — every base of the original is in exactly one sub-fragment, no base outside is covered.
+    S2  `trim_within`            `trim_fragment` only ever shrinks: the new fragment is a valid sub-interval of the trimmed
+                                 one, same contig name and strand, for ARBITRARY overhang values.
+    S1+S2 `cut_fragments_tiles`  whenever `cut_fragments` returns, the pieces it made tile the cut contig fragment exactly.
+    S3  `fuse_fragments`         `scaffolds_fused_by_name` conserves the multiset of `(name,start,end)` triples
+        `fuse_gaps`              and only inserts the join gap / the recorded input gap.
+    S4  `missing_rows_exact`     the left-over scaffold holds exactly the input fragments not in `found`, in order, each once;
+                                 separators are the input gap row in front of the fragment or the join gap; no new adjacency.
+    S5  `store_found_registers`  `store_fragments_found`: holder lists grow by exactly the occurrences, `multi` = keys with ≥ 2
+                                 holders is an invariant.
+
+    L1+S5 `find_assembly_overlaps_registry`  after `find_assembly_overlaps`: stored rows are contiguous runs of input rows,
+                                 holder lists = exactly the stored results containing the key, registry invariant holds.
+    S3+L4 `outputs_hold_store_and_leftovers` END-TO-END back half: whenever `remap` completes, the triples over all scaffolds
+                                 of all output assemblies = triples of (stored results ∪ left-over scaffolds) of the build
+                                 returned by `remap_to_input_assembly` (fusing / splitting / naming / sorting conserve).
+
+  STILL MISSING for the full end-to-end statement (one link, not proved here):
+    L2/L3  the middle of `remap_to_input_assembly`: that the resolver loop (`resolverRound`/`applyFixBookkeeping`) and
+        `cutRemaining` keep "holders of key k = stored results whose rows contain that fragment" (established by
+        `find_assembly_overlaps_registry`) in step with the rows that `discardStart/End` remove and `trimFragment` rewrites,
+        so that after cutting every input base is held by exactly one stored row or is left over (S4).  It needs an input
+        well-formedness hypothesis (distinct `(name,start,end)` keys and distinct object ids over the input fragments:
+        the registry is keyed by the triple but the resolver compares object identity) and then chains S1/S2
+        (`cut_fragments_tiles`), S4 and `outputs_hold_store_and_leftovers`.
+-/
+import AgpTpf.Proofs.C01Qc
+import AgpTpf.Proofs.C01Store
+import AgpTpf.Proofs.C01Missing
+import AgpTpf.Proofs.C01Fuse
+import AgpTpf.Proofs.C01Cut
+import AgpTpf.Proofs.C07Lemmas
+import AgpTpf.Proofs.C01Pipeline
+import AgpTpf.Proofs.C07Pipeline
 namespace AgpTpf.C01
 open AgpTpf
-theorem appendRows_nil (rows : List Row) (g : Option Gap) : Scaffold.appendRows [] rows g = rows := by
-  cases g <;> simp [Scaffold.appendRows]
+open AgpTpf.C07 (adjPairs)
+
+/-! ## S1 — the cut QC implies an exact tiling -/
+
+/-- `qc_sub_fragments` passing, for valid sub-fragments (which `Fragment.__init__` guarantees):
+    * there is at least one sub-fragment; sorted by `(start, end)` they are a permutation of `subs` in which every
+      element starts on the base after its predecessor ends, on the same contig;
+    * the lengths sum to the original's length; all sub-fragments have one name;
+    * IF every sub-fragment lies within `[f.start, f.stop]` (S2), then every base of `f` lies in exactly one
+      sub-fragment and no base outside `f` lies in any. -/
+theorem qc_tiles (f : Fragment) (subs : List Fragment) (hv : ∀ s ∈ subs, s.start ≤ s.stop)
+    (h : qcPasses f subs = true) :
+    subs ≠ [] ∧
+    (sortedSubs subs).Perm subs ∧ AdjRel Follows (sortedSubs subs) ∧
+    sumInts (subs.map Fragment.length) = f.length ∧
+    (∀ s ∈ subs, ∀ t ∈ subs, s.name = t.name) ∧
+    ((∀ s ∈ subs, f.start ≤ s.start ∧ s.stop ≤ f.stop) →
+      ∀ x, coverCount subs x = if f.start ≤ x ∧ x ≤ f.stop then 1 else 0) :=
+  qc_tiles_aux f subs hv h
+
+/-- "exactly one" spelled out: inside `f` some sub-fragment contains the base, and any two sub-fragments (by position
+    in `subs`) containing it are the same one -/
+theorem qc_tiles_unique (f : Fragment) (subs : List Fragment) (hv : ∀ s ∈ subs, s.start ≤ s.stop)
+    (h : qcPasses f subs = true) (hin : ∀ s ∈ subs, f.start ≤ s.start ∧ s.stop ≤ f.stop)
+    (x : Int) (hx : f.start ≤ x ∧ x ≤ f.stop) :
+    (∃ s ∈ subs, s.start ≤ x ∧ x ≤ s.stop) ∧
+    ∀ (i j : Nat) (s t : Fragment), subs[i]? = some s → subs[j]? = some t →
+      (s.start ≤ x ∧ x ≤ s.stop) → (t.start ≤ x ∧ x ≤ t.stop) → i = j :=
+  coverCount_one_unique subs x (by rw [(qc_tiles f subs hv h).2.2.2.2.2 hin x, if_pos hx])
+
+private def q0 : Fragment := { name := ['c'], start := 1, stop := 30, strand := 1 }
+private def q1 : Fragment := { name := ['c'], start := 11, stop := 20, strand := 1 }
+private def q2 : Fragment := { name := ['c'], start := 1, stop := 10, strand := 1 }
+private def q3 : Fragment := { name := ['c'], start := 21, stop := 30, strand := 1 }
+example : qcPasses q0 [q1, q2, q3] = true ∧ (∀ s ∈ [q1, q2, q3], s.start ≤ s.stop) ∧
+    (∀ s ∈ [q1, q2, q3], q0.start ≤ s.start ∧ s.stop ≤ q0.stop) := by decide
+/-- the QC does reject an overlap, a hole, and a piece that is too short -/
+example : qcPasses q0 [q1, q2, { q3 with start := 20 }] = false ∧ qcPasses q0 [q2, q3] = false ∧
+    qcPasses q0 [q1, q2, { q3 with stop := 29 }] = false := by decide
+
+/-! ## S2 — trimming only shrinks -/
+
+/-- `trim_fragment(trim, keep_start, keep_end)` returning: the fragment it creates lies within `trim`, is valid, and
+    keeps contig name and strand — whatever `o.startOverhang` / `o.endOverhang` are (no hypothesis on `o`). -/
+theorem trim_within (o : OverlapResult) (trim : Fragment) (ks ke : Bool) (oid : Nat)
+    (o' : OverlapResult) (new : Fragment) (h : o.trimFragment trim ks ke oid = .ok (o', new)) :
+    trim.start ≤ new.start ∧ new.stop ≤ trim.stop ∧ new.start ≤ new.stop ∧
+    new.name = trim.name ∧ new.strand = trim.strand ∧ new.oid = oid :=
+  trim_within_aux o trim ks ke oid o' new h
+
+private def t0 : Fragment := { oid := 7, name := ['c'], start := 1, stop := 100, strand := 1 }
+private def o0 : OverlapResult :=
+  { bait := { name := ['c'], start := 41, stop := 80, strand := 1 }, start := 1, stop := 100, rows := [.frag t0] }
+example : (o0.trimFragment t0 false false 9).toOption.map (fun p => (p.2.start, p.2.stop, p.2.oid)) = some (41, 80, 9) := by
+  decide
+
+/-! ## S1 + S2 — `cut_fragments` -/
+
+/-- Whenever `cut_fragments` returns for a registry entry, the sub-fragments it created (one per holding result,
+    exposed by the specification function `cutSubs`) tile the cut fragment exactly: each is a valid sub-interval of it
+    on the same contig and strand, and every base of the fragment is in exactly one of them. -/
+theorem cut_fragments_tiles (b b' : Build) (fnd : Found) (h : cutFragments b fnd = .ok b') :
+    ∃ subs, cutSubs b fnd = .ok subs ∧ subs.length = fnd.scaffolds.length ∧
+      b'.cuts = b.cuts + ((subs.length : Int) - 1) ∧
+      (∀ s ∈ subs, fnd.fragment.start ≤ s.start ∧ s.stop ≤ fnd.fragment.stop ∧ s.start ≤ s.stop ∧
+        s.name = fnd.fragment.name ∧ s.strand = fnd.fragment.strand) ∧
+      ∀ x, coverCount subs x = if fnd.fragment.start ≤ x ∧ x ≤ fnd.fragment.stop then 1 else 0 :=
+  cut_fragments_tiles_aux b b' fnd h
+
+/-! ## S3 — fusing conserves fragments -/
+
+/-- The multiset of `(name, start, end)` triples over all fused scaffolds equals that of the rows of all results that
+    were added to the build (`storeKeys`) together with all left-over scaffolds (`extraKeys`).
+    (`to_scaffold` reverses row order and negates strands, so conservation is on triples.) -/
+theorem fuse_fragments (b : Build) :
+    ((fuseByName b).flatMap (fun s => keysOf s.rows)).Perm (storeKeys b.store ++ extraKeys b.extra) :=
+  fuseByName_keys b
+
+/-- where a gap row of a fused scaffold can come from -/
+def GapSrc (b : Build) (g : Gap) : Prop :=
+  (∃ r ∈ b.store, r.added = true ∧ Row.gap g ∈ r.o.rows) ∨
+  (∃ e ∈ b.extra, Row.gap g ∈ e.1.rows) ∨
+  b.joinGap = some g ∨
+  (∃ e ∈ b.extra, ∃ prev, e.2 = some (prev, some g))
+
+/-- every gap row of a fused scaffold is a gap row of one of its parts, the join gap, or the input gap recorded with a
+    left-over scaffold's predecessor; and no fused scaffold is empty -/
+theorem fuse_gaps (b : Build) : ∀ s ∈ fuseByName b, (∀ g, Row.gap g ∈ s.rows → GapSrc b g) ∧ s.rows ≠ [] := by
+  apply fuseByName_all (fun rows => ∀ g, Row.gap g ∈ rows → GapSrc b g)
+  · intro r hr hadd _
+    have part : ∀ g, Row.gap g ∈ r.o.toScaffoldRows → GapSrc b g := fun g hg =>
+      Or.inl ⟨r, hr, hadd, (gap_mem_toScaffoldRows _ _).mp hg⟩
+    refine ⟨fun g hg => ?_, fun built _ hb g hg => ?_⟩
+    · rcases mem_appendRows _ _ _ _ hg with h | h | ⟨gg, h1, h2⟩
+      · cases h
+      · exact part g h
+      · cases h2; exact Or.inr (Or.inr (Or.inl h1))
+    · rcases mem_appendRows _ _ _ _ hg with h | h | ⟨gg, h1, h2⟩
+      · exact hb g h
+      · exact part g h
+      · cases h2; exact Or.inr (Or.inr (Or.inl h1))
+  · intro e he _
+    have part : ∀ g, Row.gap g ∈ e.1.rows → GapSrc b g := fun g hg => Or.inr (Or.inl ⟨e, he, hg⟩)
+    have sep : ∀ built gg, gapBeforeLeftover b.joinGap built e.2 = some gg → GapSrc b gg := by
+      intro built gg h
+      rcases C07.gapBeforeLeftover_source _ _ _ _ h with h | ⟨prev, h⟩
+      · exact Or.inr (Or.inr (Or.inl h))
+      · exact Or.inr (Or.inr (Or.inr ⟨e, he, prev, h⟩))
+    refine ⟨fun g hg => ?_, fun built _ hb g hg => ?_⟩
+    · rcases mem_appendRows _ _ _ _ hg with h | h | ⟨gg, h1, h2⟩
+      · cases h
+      · exact part g h
+      · cases h2; exact sep _ _ h1
+    · rcases mem_appendRows _ _ _ _ hg with h | h | ⟨gg, h1, h2⟩
+      · exact hb g h
+      · exact part g h
+      · cases h2; exact sep _ _ h1
+
+private def jg : Gap := { length := 200, gapType := "scaffold".toList }
+private def fa : Fragment := { oid := 1, name := ['a'], start := 1, stop := 10, strand := 1 }
+private def fb : Fragment := { oid := 2, name := ['b'], start := 1, stop := 20, strand := 1 }
+private def fc : Fragment := { oid := 3, name := ['c'], start := 1, stop := 5, strand := 1 }
+private def bx : Build :=
+  { namer := { autosomePrefix := [] }, nextOid := 4, joinGap := some jg, err := 1,
+    store := [ { o := { bait := { fa with strand := -1 }, start := 1, stop := 10, rows := [.frag fa], name := ['S'] }, added := true },
+               { o := { bait := fb, start := 1, stop := 20, rows := [.frag fb], name := ['S'] }, added := true } ],
+    extra := [ ({ name := ['S'], rows := [.frag fc] }, none) ] }
+/-- three parts with the same `(tag, haplotype, name)` key are fused into one scaffold with two join gaps -/
+example : (fuseByName bx).map (·.rows) = [[.frag fa.reverse, .gap jg, .frag fb, .gap jg, .frag fc]] := by decide
+
+/-! ## S4 — left-over rows -/
+
+/-- `missingRows` returning `(out, first)` for one input scaffold's `rows`:
+    * the fragments of `out` are exactly the fragments of `rows` whose key is not in `found`, in order, each once;
+    * every gap row of `out` is the input gap row directly in front of such a fragment, or the join gap (`GapOK`);
+    * no new adjacency: fragments directly adjacent in `out` were directly adjacent rows of `rows`;
+    * `out` neither starts nor ends with a gap;
+    * `first` is the row index of the first left-over fragment. -/
+theorem missing_rows_exact (b : Build) (rows out : List Row) (first : Option Nat)
+    (h : missingRows b rows = .ok (out, first)) :
+    fragmentsOf out = (fragmentsOf rows).filter (fun f => !dHas b.found f.keyTuple) ∧
+    (∀ g, Row.gap g ∈ out → GapOK b rows g) ∧
+    (∀ pr ∈ adjPairs out, pr ∈ adjPairs rows) ∧
+    (∀ g, out.head? ≠ some (.gap g)) ∧ (∀ g, out.getLast? ≠ some (.gap g)) ∧
+    first = (((List.range rows.length).zip rows).find? (isMissing b)).map Prod.fst :=
+  missingRows_spec b rows out first h
+
+/-- every gap of `out` is in particular a gap row of `rows` or the join gap (the form asked for in the task) -/
+theorem missing_rows_gaps (b : Build) (rows out : List Row) (first : Option Nat)
+    (h : missingRows b rows = .ok (out, first)) (g : Gap) (hg : Row.gap g ∈ out) :
+    Row.gap g ∈ rows ∨ b.joinGap = some g := by
+  rcases (missing_rows_exact b rows out first h).2.1 g hg with ⟨i, _, _, _, h3⟩ | h
+  · exact Or.inl (List.mem_of_getElem? h3)
+  · exact Or.inr h
+
+private def g5 : Gap := { length := 5, gapType := ['u'] }
+private def bm : Build :=
+  { namer := { autosomePrefix := [] }, nextOid := 4, joinGap := some jg, err := 1,
+    found := [(fb.keyTuple, { fragment := fb, scaffolds := [0] })] }
+example : missingRows bm [.frag fa, .gap g5, .frag fb, .frag fc] = .ok ([.frag fa, .gap jg, .frag fc], some 0) := by decide
+example : missingRows bm [.frag fb, .frag fa, .frag fb, .gap g5, .frag fc] = .ok ([.frag fa, .gap g5, .frag fc], some 1) := by
+  decide
+/-- without a join gap a needed separator is an error, not a silent gapless join -/
+example : missingRows { bm with joinGap := none } [.frag fa, .frag fb, .frag fc] = .error .attribute := by decide
+
+/-! ## S5 — the registry of found fragments -/
+
+/-- `store_fragments_found(sid, frags)`:
+    * the holder list of every key grows by exactly one `sid` per occurrence of the key in `frags` (appended, in order);
+    * afterwards a key is registered iff it was before or occurs in `frags` — so every fragment of `frags` is registered;
+    * the registry invariant (registered keys have ≥ 1 holder; `multi` = exactly the keys with ≥ 2 holders) is preserved;
+    * nothing else of the build changes. -/
+theorem store_found_registers (b : Build) (sid : Nat) (frags : List Fragment) :
+    let b' := storeFragmentsFound b sid frags
+    (∀ k, holders b' k = holders b k ++ List.replicate (frags.countP (fun f => decide (f.keyTuple = k))) sid) ∧
+    (∀ k, dHas b'.found k = (dHas b.found k || frags.any (fun f => decide (f.keyTuple = k)))) ∧
+    (∀ f ∈ frags, dHas b'.found f.keyTuple = true ∧ sid ∈ holders b' f.keyTuple) ∧
+    (RegistryInv b → RegistryInv b') ∧
+    (b'.store = b.store ∧ b'.extra = b.extra ∧ b'.namer = b.namer ∧ b'.cuts = b.cuts ∧ b'.nextOid = b.nextOid ∧
+      b'.joinGap = b.joinGap ∧ b'.err = b.err) := by
+  intro b'
+  have hb' : b' = frags.foldl (storeOne sid) b := rfl
+  have hreg : ∀ k, dHas b'.found k = (dHas b.found k || frags.any (fun f => decide (f.keyTuple = k))) := by
+    intro k; unfold dHas; rw [hb']; exact foldl_storeOne_registered sid frags b k
+  have hhold : ∀ k, holders b' k = holders b k ++ List.replicate (frags.countP (fun f => decide (f.keyTuple = k))) sid := by
+    intro k; rw [hb']; exact foldl_storeOne_holders sid frags b k
+  refine ⟨hhold, hreg, ?_, ?_, ?_⟩
+  · intro f hf
+    constructor
+    · rw [hreg]
+      have : frags.any (fun f' => decide (f'.keyTuple = f.keyTuple)) = true :=
+        List.any_eq_true.mpr ⟨f, hf, by simp⟩
+      rw [this]; simp
+    · rw [hhold]
+      apply List.mem_append_right
+      have : 0 < frags.countP (fun f' => decide (f'.keyTuple = f.keyTuple)) :=
+        List.countP_pos_iff.mpr ⟨f, hf, by simp⟩
+      rw [List.mem_replicate]
+      exact ⟨by omega, rfl⟩
+  · intro h; rw [hb']; exact foldl_storeOne_inv sid frags b h
+  · rw [hb']; exact foldl_storeOne_other_fields sid frags b
+
+/-- the empty registry satisfies the invariant -/
+theorem registryInv_empty (b : Build) (h1 : b.found = []) (h2 : b.multi = []) : RegistryInv b := by
+  constructor
+  · intro k fnd h; rw [h1] at h; simp [dGet?] at h
+  · intro k; simp [h2, holders, h1, dGet?]
+
+private def b0 : Build := { namer := { autosomePrefix := [] }, nextOid := 4, joinGap := some jg, err := 1 }
+example : (storeFragmentsFound (storeFragmentsFound b0 0 [fa, fb]) 1 [fb, fc]).multi = [fb.keyTuple] ∧
+    holders (storeFragmentsFound (storeFragmentsFound b0 0 [fa, fb]) 1 [fb, fc]) fb.keyTuple = [0, 1] := by decide
+
+/-! ## L1 + S5 at pipeline level — what `find_assembly_overlaps` establishes -/
+
+/-- After `find_assembly_overlaps` on a fresh build (any input, any Pretext assembly):
+    * every stored result's rows are a contiguous run of the rows of an input scaffold with the bait's name (L1);
+    * the registry invariant holds (S5), and for EVERY key the recorded holder list is exactly the list of stored
+      results (appended to the build) whose rows contain a fragment with that key, in store order, once per occurrence;
+    * results appended to the build are non-empty; no left-over scaffolds exist yet, configuration fields are unchanged. -/
+theorem find_assembly_overlaps_registry (input ptx : List Scaffold) (b b' : Build)
+    (h0 : b.store = [] ∧ b.found = [] ∧ b.multi = [])
+    (h : findAssemblyOverlaps input ptx b = .ok b') :
+    RegistryInv b' ∧
+    (∀ k, holders b' k = holdersSpec b'.store k) ∧
+    (∀ r ∈ b'.store, ∃ sc ∈ input, r.o.rows <:+: sc.rows ∧ sc.name = r.o.bait.name) ∧
+    (∀ r ∈ b'.store, r.added = true → r.o.rows ≠ []) ∧
+    b'.extra = b.extra ∧ b'.joinGap = b.joinGap ∧ b'.err = b.err ∧ b'.cuts = b.cuts := by
+  obtain ⟨e1, e2, e3⟩ := h0
+  have hinv : PInv input b := by
+    refine ⟨registryInv_empty b e2 e3, ?_, ?_, ?_⟩
+    · intro k; simp [holders, e2, dGet?, holdersSpec, e1, holdersFrom]
+    · intro r hr; rw [e1] at hr; cases hr
+    · intro r hr; rw [e1] at hr; cases hr
+  obtain ⟨p, c1, c2, c3, c4⟩ := findAssemblyOverlaps_inv input ptx b b' hinv h
+  exact ⟨p.registry, p.holders_eq, p.slices, p.added_iff, c1, c2, c3, c4⟩
+
+private def inA : Scaffold := { name := ['A'], rows := [.frag fa, .gap g5, .frag { fb with name := ['a'], start := 11 }] }
+private def inB : Scaffold := { name := ['B'], rows := [.frag fc] }
+private def ptx1 : Scaffold :=
+  { name := ['S','1'], rows := [.frag { oid := 10, name := ['A'], start := 1, stop := 25, strand := 1, tags := [sPainted] }] }
+/-- the hypotheses are satisfiable: a fresh build, and the search completes (one stored result holding two contigs) -/
+example : (b0.store = [] ∧ b0.found = [] ∧ b0.multi = []) ∧
+    (findAssemblyOverlaps [inA, inB] [ptx1] b0).toOption.map (fun b => b.store.length) = some 1 ∧
+    (findAssemblyOverlaps [inA, inB] [ptx1] b0).toOption.map (fun b => b.found.map (·.1)) =
+      some [fa.keyTuple, (['a'], 11, 20)] ∧
+    (findAssemblyOverlaps [inA, inB] [ptx1] b0).toOption.map (fun b => b.multi) = some [] := by
+  refine ⟨⟨rfl, rfl, rfl⟩, ?_, ?_, ?_⟩ <;> decide +kernel
+
+/-! ## S3 + L4 — the back half of the pipeline conserves fragments -/
+
+/-- Whenever `remap` completes: there is the build `b` that `remap_to_input_assembly` returned, and the multiset of
+    `(name, start, end)` triples over ALL scaffolds of ALL output assemblies equals the triples held by the stored
+    results that were appended to the build together with the left-over scaffolds.  Fusing, the split into assemblies,
+    chromosome naming and sorting lose, duplicate and invent nothing. -/
+theorem outputs_hold_store_and_leftovers (input ptx : List Scaffold) (prefix_ : Str) (joinGap : Option Gap) (err : Int)
+    (outs : List OutAsm) (stats : Stats) (h : remap input ptx prefix_ joinGap err = .ok (outs, stats)) :
+    ∃ b, remapToInput input ptx prefix_ joinGap err = .ok b ∧
+      (((outs.flatMap (·.scaffolds)).flatMap (fun s => keysOf s.rows)).Perm (storeKeys b.store ++ extraKeys b.extra)) := by
+  unfold remap at h
+  simp only [bind, Except.bind] at h
+  split at h
+  · cases h
+  · next b hb =>
+    refine ⟨b, hb, ?_⟩
+    have h1 := C07.assembliesFused_perm input b outs stats h
+    have h2 : ((outs.flatMap (·.scaffolds)).flatMap (fun s => keysOf s.rows)) =
+        ((outs.flatMap (·.scaffolds)).map (·.rows)).flatMap keysOf := by rw [List.flatMap_map]
+    have h3 : ((fuseByName b).flatMap (fun s => keysOf s.rows)) = ((fuseByName b).map (·.rows)).flatMap keysOf := by
+      rw [List.flatMap_map]
+    rw [h2]
+    exact (h1.flatMap_right keysOf).trans (h3 ▸ fuse_fragments b)
+
+/-- remapping completes on a small example: contig `c` is left over and comes out as its own scaffold -/
+example : (remap [inA, inB] [ptx1] [] (some jg) 1).toOption.map
+      (fun r => (r.1.flatMap (·.scaffolds)).flatMap (fun s => keysOf s.rows)) =
+    some [fa.keyTuple, (['a'], 11, 20), fc.keyTuple] := by decide +kernel
+
 end AgpTpf.C01
